@@ -21,19 +21,20 @@ theorem inSim_snoc (p : BDoc × List BDoc) (d : BDoc) (h : InSim p) (hd : SimDoc
   · exact h x hx
   · simp at hx; rw [hx]; exact hd
 
-/-- a document of the pending run's schema -/
-theorem sd_add_same (n : Nat) (hn : 1 ≤ n) (c : StreamingDynamic) (chs : List (BDoc × List BDoc)) (p : BDoc × List BDoc)
+/-- a document of the pending run's schema: it joins the pending run, or — the pending run being full —
+the pending run is written and the document starts the next one -/
+theorem sd_add_same' (n : Nat) (hn : 1 ≤ n) (c : StreamingDynamic) (chs : List (BDoc × List BDoc)) (p : BDoc × List BDoc)
     (d : BDoc) (g : SDG n c chs p) (hsim : SimDoc p.1 d) :
-    (c.add d).2 = .ok ∧ ∃ chs' p', SDG n (c.add d).1 chs' p' ∧ allDocs chs' (some p') = allDocs chs (some p) ++ [d] ∧
-      SimDoc p'.1 d := by
+    (c.add d).2 = .ok ∧ ∃ chs' p', SDG n (c.add d).1 chs' p' ∧
+      ((chs' = chs ∧ p' = (p.1, p.2 ++ [d])) ∨ (chs' = chs ++ [p] ∧ p' = (d, []) ∧ p.2.length + 1 = n)) := by
   have hk : schemaKey p.1 = schemaKey d := sim_schemaKey _ _ hsim
   obtain ⟨hok, chs', p', g', hcase⟩ := sg_add' n hn c.s chs (some p) d g.sg (by intro q hq; cases hq; exact hsim)
   have hadd : c.add d = ({ s := (c.s.add d).1, hash := some (schemaKey d) }, (c.s.add d).2) := by
     unfold StreamingDynamic.add
     simp [g.hash, hk]
   rw [hadd]
-  refine ⟨hok, chs', p', ?_, ?_, ?_⟩
-  · rcases hcase with ⟨rfl, q, hq, rfl⟩ | ⟨rfl, rfl⟩
+  refine ⟨hok, chs', p', ?_, ?_⟩
+  · rcases hcase with ⟨rfl, q, hq, rfl⟩ | ⟨rfl, rfl, _⟩
     · cases hq
       exact ⟨g', by simp [hk], g.runs, inSim_snoc p d g.pend hsim⟩
     · refine ⟨g', rfl, ?_, by intro x hx; simp at hx⟩
@@ -41,11 +42,19 @@ theorem sd_add_same (n : Nat) (hn : 1 ≤ n) (c : StreamingDynamic) (chs : List 
       rcases List.mem_append.1 hq with hq | hq
       · exact g.runs q hq
       · simp at hq; rw [hq]; exact g.pend
-  · rcases hcase with ⟨rfl, q, hq, rfl⟩ | ⟨rfl, rfl⟩
-    · cases hq; simp [allDocs, chunkDocs]
-    · simp [allDocs, chunkDocs]
-  · rcases hcase with ⟨rfl, q, hq, rfl⟩ | ⟨rfl, rfl⟩
-    · cases hq; exact hsim
+  · rcases hcase with ⟨rfl, q, hq, rfl⟩ | ⟨rfl, rfl, hfull⟩
+    · cases hq; exact Or.inl ⟨rfl, rfl⟩
+    · exact Or.inr ⟨by simp, rfl, hfull p rfl⟩
+
+theorem sd_add_same (n : Nat) (hn : 1 ≤ n) (c : StreamingDynamic) (chs : List (BDoc × List BDoc)) (p : BDoc × List BDoc)
+    (d : BDoc) (g : SDG n c chs p) (hsim : SimDoc p.1 d) :
+    (c.add d).2 = .ok ∧ ∃ chs' p', SDG n (c.add d).1 chs' p' ∧ allDocs chs' (some p') = allDocs chs (some p) ++ [d] ∧
+      SimDoc p'.1 d := by
+  obtain ⟨hok, chs', p', g', hcase⟩ := sd_add_same' n hn c chs p d g hsim
+  refine ⟨hok, chs', p', g', ?_, ?_⟩
+  · rcases hcase with ⟨rfl, rfl⟩ | ⟨rfl, rfl, _⟩ <;> simp [allDocs, chunkDocs]
+  · rcases hcase with ⟨rfl, rfl⟩ | ⟨rfl, rfl, _⟩
+    · exact hsim
     · exact simDoc_refl _
 
 /-- a document with another schema key: the pending chunk is flushed and a new run starts -/
@@ -63,7 +72,7 @@ theorem sd_add_diff (n : Nat) (hn : 1 ≤ n) (c : StreamingDynamic) (chs : List 
     unfold StreamingDynamic.add
     simp [g.hash, hkne, hflush]
   rw [hadd]
-  rcases hcase with ⟨_, q, hq, _⟩ | ⟨rfl, rfl⟩
+  rcases hcase with ⟨_, q, hq, _⟩ | ⟨rfl, rfl, _⟩
   · cases hq
   · refine ⟨hok, ?_, rfl, ?_, by intro x hx; simp at hx⟩
     · simpa using g'
@@ -81,7 +90,7 @@ theorem sd_add_first (n : Nat) (hn : 1 ≤ n) (d : BDoc) :
     unfold StreamingDynamic.add StreamingDynamic.new
     simp [Streaming.new]
   rw [hadd]
-  rcases hcase with ⟨_, q, hq, _⟩ | ⟨rfl, rfl⟩
+  rcases hcase with ⟨_, q, hq, _⟩ | ⟨rfl, rfl, _⟩
   · cases hq
   · exact ⟨hok, by simpa using g', rfl, by intro q hq; simp at hq, by intro x hx; simp at hx⟩
 
